@@ -203,6 +203,44 @@ pub fn check_rank(map: &MapSel) -> CheckResult {
     if !affine {
         return Ok(CaseInfo::new(true).class(map.name()).class("not-affine:no-algebraic-verdict"));
     }
+    // the map at its algebraically special points: a map that is affine on generic inputs may
+    // still special-case the input for which the result equals the input (fixed point), or is 0
+    // or all ones; the extracted (A, c) predicts those inputs, the real code must agree there —
+    // if it does not, the affine part supplies a second preimage, i.e. an executed collision
+    {
+        use crate::gf2::{Bits, Matrix};
+        let to_bits = |v: u64| {
+            let mut b = Bits::ZERO;
+            b.0[0] = v;
+            b
+        };
+        let a = Matrix { n: 64, cols: cols.iter().map(|c| to_bits(*c)).collect() };
+        let mut a_xor_i = a.clone();
+        for (i, c) in a_xor_i.cols.iter_mut().enumerate() {
+            c.0[0] ^= 1u64 << i;
+        }
+        let mut specials: Vec<(&str, Option<u64>)> = Vec::new();
+        for (name, r) in [("fixed point", 0u64), ("result = !input", u64::MAX), ("result = input ^ 1", 1)] {
+            specials.push((name, a_xor_i.solve(&to_bits(f0 ^ r)).map(|x| x.0[0])));
+        }
+        for (name, target) in [("result = 0", 0u64), ("result = all ones", u64::MAX), ("result = 1", 1)] {
+            specials.push((name, a.solve(&to_bits(f0 ^ target)).map(|x| x.0[0])));
+        }
+        for (name, x) in specials {
+            let Some(x) = x else { continue };
+            let pred = (0..64).filter(|i| (x >> i) & 1 == 1).fold(f0, |acc, i| acc ^ cols[i]);
+            let real = map.eval(x)?;
+            if real != pred {
+                // second preimage of `real` under the affine part
+                if let Some(q) = a.solve(&to_bits(real ^ f0)).map(|b| b.0[0]) {
+                    if q != x && map.eval(q)? == real {
+                        return Err(Fail::new(format!("C15:collision:{}", map.name()), format!("the {} map treats its special input {:#018x} ({}) differently from the affine rule it follows elsewhere; that input and {:#018x} are both sent to {:#018x}: two different pool contents are merged", map.name(), x, name, q, real)));
+                    }
+                }
+                return Err(Fail::inconclusive("C15:special-point", "the map deviates from its affine part at a special point but no collision could be executed"));
+            }
+        }
+    }
     let (rank, kernel) = rank64(&cols);
     if rank != 64 {
         let k = kernel.unwrap();
@@ -285,7 +323,7 @@ pub fn def(ctx: &Ctx) -> PropDef {
     subs.push(PSub::boxed("birthday", t.pick(8, 24), move || (map_sel(false), any::<u64>()).prop_map(move |(map, start)| BirthdayCase { map, start, log2_samples: lg }).boxed(), check_birthday));
     PropDef {
         id: "C15",
-        rule: "three maps of the 64-bit pool are observed on the real code through the cfg(rngs_verif) hooks: the LFSR fold F(d,t) (in d for generated fixed t, in t for generated fixed d), the stir S(d), and whole collections C_s(d) over generated timer scripts (fold + rotate-by-7 + stir composed). Generated inputs (uniform, sparse 1-3 bits, dense, half-word, zero): (1) affinity triples M(a)^M(b)^M(c) = M(a^b^c) with a pairwise collision test, and joint affinity of F in (d,t); (2) if affine: the 64x64 linear part extracted from the basis must have rank 64 (a defect gives a kernel vector and an executed colliding pair); (3) model-free collision search: single-bit, double-bit, byte and random differentials, and a birthday search over 2^16 (thorough 2^21) outputs per map. Only an executed collision is a violation; a non-affine map gets no algebraic verdict. Non-trivial = triple of three distinct non-zero values / pair with a non-zero difference; distinct by hash of the case.".into(),
+        rule: "three maps of the 64-bit pool are observed on the real code through the cfg(rngs_verif) hooks: the LFSR fold F(d,t) (in d for generated fixed t, in t for generated fixed d), the stir S(d), and whole collections C_s(d) over generated timer scripts (fold + rotate-by-7 + stir composed). Generated inputs (uniform, sparse 1-3 bits, dense, half-word, zero): (1) affinity triples M(a)^M(b)^M(c) = M(a^b^c) with a pairwise collision test, and joint affinity of F in (d,t); (2) if affine: the 64x64 linear part extracted from the basis must have rank 64 (a defect gives a kernel vector and an executed colliding pair), and the real map must follow the affine rule also at its algebraically special inputs (fixed point, result = complement of input, result = 0 / all ones), solved for from the extracted map; (3) model-free collision search: single-bit, double-bit, byte and random differentials, and a birthday search over 2^16 (thorough 2^21) outputs per map. Only an executed collision is a violation; a non-affine map gets no algebraic verdict. Non-trivial = triple of three distinct non-zero values / pair with a non-zero difference; distinct by hash of the case.".into(),
         explanation: Some("2^64 x 2^64 inputs cannot be enumerated. The pool updates are XOR/shift/rotate networks, i.e. affine maps over GF(2); generated triples establish affinity (BLR test), the linear part is then read off the real code on the 64 basis inputs and its rank decides bijectivity exactly. The rotation by 7 cannot be isolated through the hooks, but a composition of maps on a finite set is bijective only if every factor is, so the rank of whole collections covers it. The LFSR taps themselves are C12's subject: a different but bijective fold does not alarm here.".into()),
         assumptions: vec!["affinity outside the sampled triples".into(), "hooks verif_pool / verif_set_pool / verif_stir_once observe and set JitterRng's pool without other effects".into()],
         subs,
